@@ -155,14 +155,21 @@ def _size(case):
 
 def run_case(clause, case, findings, res):
     """Run check on one case, account for it in res.  Returns list of *unlisted* violations."""
+    import io
+    _so = sys.stdout
+    sys.stdout = io.StringIO()          # kawin prints from library code; keep the check's own output clean
     try:
         out = clause.check(case)
     except HarnessError:
+        sys.stdout = _so
         raise
     except Exception as e:  # an exception escaping check() is a harness error
         tb = traceback.format_exc()
+        sys.stdout = _so
         res.harness_errors.append({"case": jsonable(case), "error": repr(e), "tb": tb[-3000:]})
         return []
+    finally:
+        sys.stdout = _so
     res.evaluations += 1
     for lab in out.labels:
         res.labels[lab] = res.labels.get(lab, 0) + 1
